@@ -119,11 +119,11 @@ def gen_call(rng):
         c["start"] = pos(0, L)
         c["end"] = pos(0, L)
     else:
-        k = rng.randint(2, 4)
+        k = rng.randint(1, 4)
         lens = [rng.randint(1, max(1, min(6, L // k))) for _ in range(k)]
         c["mo"] = [motif_batch(m) for m in lens]
         c["sp"] = [rng.choice([0, 0, 1, 2, 3, rng.randint(0, max(0, L // k))]) for _ in range(k - 1)]
-        if rng.random() < 0.05:
+        if rng.random() < 0.05 and c["sp"]:
             c["sp"][0] = -1
         tot = sum(lens) + sum(c["sp"])
         c["start"] = NOSTART if rng.random() < 0.2 else pos(0, L - tot)
